@@ -63,7 +63,8 @@ def run(ids: list[str]) -> None:
                 entry["error"] = "patch does not apply: " + out[-300:]
             else:
                 for p in props:
-                    rc, out = sh(f"cd {VERIF} && timeout 900 ./check {p} --tier quick", timeout=1000)
+                    # (the evidence of a run against a patched tree is kept out of evidence/, which is for the tree as it is)
+                    rc, out = sh(f"cd {VERIF} && VERIF_EVIDENCE_DIR=/tmp/seed/evidence_run timeout 900 ./check {p} --tier quick", timeout=1000)
                     line = next((l for l in out.splitlines() if l.startswith(("VIOLATION", "OK ", "INFRASTRUCTURE"))), out[-200:])
                     entry["checks"][p] = {"exit": rc, "line": line}
         finally:
